@@ -15,14 +15,20 @@ func Read[T allowedGenericTypes](reader io.Reader) (result T, err error) {
 }
 
 func ReadBytes(reader io.Reader, length int) ([]byte, error) {
-	readBytes := make([]byte, length)
+	if length < 0 {
+		return nil, ierrors.Errorf("failed to read serialized bytes: invalid size (%d)", length)
+	}
 
-	nBytes, err := reader.Read(readBytes)
+	// A reader is allowed to return less than requested, so we have to read until the requested amount of bytes is
+	// complete. The buffer grows with the data that actually arrives, because the length might stem from a (possibly
+	// hostile) length prefix and must not be trusted for an allocation up front.
+	readBytes, err := io.ReadAll(io.LimitReader(reader, int64(length)))
 	if err != nil {
 		return nil, ierrors.Wrap(err, "failed to read serialized bytes")
 	}
-	if nBytes != length {
-		return nil, ierrors.Errorf("failed to read serialized bytes: read bytes (%d) != size (%d)", nBytes, length)
+
+	if len(readBytes) != length {
+		return nil, ierrors.Errorf("failed to read serialized bytes: read bytes (%d) != size (%d)", len(readBytes), length)
 	}
 
 	return readBytes, nil
